@@ -160,9 +160,10 @@ Proof.
 Qed.
 
 (** * Filters that do not look at the context: acceptance is a function of the metadata alone *)
-Lemma f_enabled_ctx_free : forall f m cur, ctx_free f -> f_enabled f m cur = f_enabled f m None.
+Lemma f_enabled_ctx_free : forall f m cur, ctx_free f -> f_enabled f m cur = f_enabled f m [].
 Proof.
   induction f; simpl; intros m cur H; auto.
+  - destruct H.
   - destruct H.
   - destruct H. rewrite IHf1, IHf2; auto.
   - destruct H. rewrite IHf1, IHf2; auto.
@@ -176,14 +177,46 @@ Proof.
   intros e He. apply H. right. exact He.
 Qed.
 
-(** * A sound max level: TRACE, when the pool has no level above it *)
-Lemma hint_trace : forall c pool, forallb (fun m => m_level m <=? 5) pool = true -> HintSound c 5 pool.
+(** * Sound summaries: max level TRACE when the pool has no level above it, and no callsite of the pool in the F12
+      situation (decided by computation) *)
+Fixpoint f12b (f : filt) (m : meta) : bool :=
+  match f with
+  | FEnv _ _ dy => negb (is_span m && dyn_matches dy m) || (m_level m <=? dyn_max dy)
+  | FAnd a b | FOr a b => f12b a m && f12b b m
+  | FNot a => f12b a m
+  | _ => true
+  end.
+Lemma f12b_spec : forall f m, f12b f m = true -> f12_free f m.
 Proof.
-  intros c pool H cs st Hlt. exfalso. unfold meta_of in Hlt.
+  induction f; simpl; intros m H; auto.
+  - intros E. rewrite E in H. simpl in H. apply N.leb_le. exact H.
+  - apply andb_true_iff in H. destruct H. auto.
+  - apply andb_true_iff in H. destruct H. auto.
+Qed.
+Definition nof12b (c : coll) (pool : list meta) : bool :=
+  forallb (fun m => forallb (fun g => f12b g m) (coll_globs c) &&
+                    forallb (fun r => forallb (fun e => f12b (snd e) m) (snd r)) (coll_recs c)) (dummy_meta :: pool).
+Lemma nof12b_spec : forall c pool, nof12b c pool = true -> forall cs, F12Free c (meta_of pool cs).
+Proof.
+  intros c pool H cs. unfold nof12b in H. rewrite forallb_forall in H.
+  assert (Hin : In (meta_of pool cs) (dummy_meta :: pool)).
+  { unfold meta_of. destruct (nth_in_or_default (N.to_nat cs) pool dummy_meta) as [Hi|E]; [right; exact Hi | left; symmetry; exact E]. }
+  apply H in Hin. apply andb_true_iff in Hin. destruct Hin as [Hg Hr]. rewrite forallb_forall in Hg, Hr. split.
+  - intros g Hgin. apply f12b_spec. auto.
+  - intros r e Hrin Hein. apply f12b_spec. pose proof (Hr r Hrin) as X. rewrite forallb_forall in X. auto.
+Qed.
+Lemma hint_trace : forall c pool, forallb (fun m => m_level m <=? 5) pool = true -> nof12b c pool = true -> HintSound c 5 pool.
+Proof.
+  intros c pool H HF. split; [|apply nof12b_spec; exact HF].
+  intros cs st Hlt. exfalso. unfold meta_of in Hlt.
   destruct (nth_in_or_default (N.to_nat cs) pool dummy_meta) as [Hin|E].
   - rewrite forallb_forall in H. apply H in Hin. apply N.leb_le in Hin. lia.
   - rewrite E in Hlt. simpl in Hlt. lia.
 Qed.
+Lemma pool45_levels : forallb (fun m => m_level m <=? 5) pool45 = true.
+Proof. vm_compute. reflexivity. Qed.
+
+Ltac hint5 := apply hint_trace; [apply pool45_levels | vm_compute; reflexivity].
 
 (** * The known finding F3: an [enabled] pass that its own event never follows leaves bits behind *)
 (** after history [h], does leaf [n] miss an event at callsite [cs] that every global filter and every filter
@@ -201,9 +234,6 @@ Definition f3_stack : coll :=
   With (Filt 0 (Rec 2 nov) (tgt [(0, 5); (1, 5)])) (With (Filt 0 (Rec 1 nov) (tgt [(0, 5)])) Registry).
 (** the same under a plain layer that vetoes callsite 7 in [event_enabled] (corpus/C07/f3_event_enabled_veto.json) *)
 Definition f3_veto_stack : coll := With (Rec 3 (in_set [7])) f3_stack.
-
-Lemma pool45_levels : forallb (fun m => m_level m <=? 5) pool45 = true.
-Proof. vm_compute. reflexivity. Qed.
 
 Lemma f3_stack_wf : WF (build f3_stack).
 Proof.
@@ -229,7 +259,7 @@ Theorem F3_refuted_probe :
   exists c h cs n, WF c /\ HintSound c 5 pool45 /\ clean c 5 pool45 h = false /\ misses c 5 pool45 h cs n.
 Proof.
   exists (build f3_stack), [OEvent 6; OProbe 37], 6, 1.
-  split; [apply f3_stack_wf|]. split; [apply hint_trace, pool45_levels|]. split; [vm_compute; reflexivity|].
+  split; [apply f3_stack_wf|]. split; [hint5|]. split; [vm_compute; reflexivity|].
   unfold misses. exists nov, [(0, tgt [(0, 5)])]. split; [|split].
   - vm_compute. auto.
   - vm_compute. reflexivity.
@@ -240,7 +270,7 @@ Theorem F3_refuted_veto :
   exists c h cs n, WF c /\ HintSound c 5 pool45 /\ no_probe h /\ clean c 5 pool45 h = false /\ misses c 5 pool45 h cs n.
 Proof.
   exists (build f3_veto_stack), [OEvent 6; OEvent 7], 6, 1.
-  split; [apply f3_veto_stack_wf|]. split; [apply hint_trace, pool45_levels|].
+  split; [apply f3_veto_stack_wf|]. split; [hint5|].
   split; [intros cs [H|[H|[]]]; discriminate|]. split; [vm_compute; reflexivity|].
   unfold misses. exists nov, [(0, tgt [(0, 5)])]. split; [|split].
   - vm_compute. auto.
@@ -288,7 +318,7 @@ Example nonvacuous :
   (* ... and the event inside that span reaches leaf 3 (its closure looks at the current span) *)
   deliveredb 3 (nth 2 (run_obs (build nv_stack) 5 pool45 nv_history) []) = true.
 Proof.
-  split; [apply nv_stack_wf|]. split; [apply hint_trace, pool45_levels|].
+  split; [apply nv_stack_wf|]. split; [hint5|].
   split; [vm_compute; reflexivity|]. split; [repeat split; vm_compute; reflexivity | vm_compute; reflexivity].
 Qed.
 
@@ -322,7 +352,7 @@ Proof.
                assert (E : forallb (fun k => k <? 64) (coll_ids (build f71_stack)) = true) by (vm_compute; reflexivity);
                rewrite forallb_forall in E; apply N.ltb_lt; auto |];
       split; [ apply NoDup_by_nodup; vm_compute; reflexivity |];
-      split; [ apply hint_trace, pool45_levels |];
+      split; [ hint5 |];
       split; [ vm_compute; reflexivity |];
       unfold misses; exists nov, [];
       split; [ vm_compute; left; reflexivity |];
@@ -343,3 +373,33 @@ Example climb_example :
    (* on_new_span of handler (span 3): the filtered leaf climbs to request (2) and stops; the plain leaf goes on to conn (1) *)
    chain_seen 1 out = [([2], [2], [2; 3])] /\ chain_seen 2 out = [([2; 1], [2; 1], [1; 2; 3])]).
 Proof. split; [vm_compute; reflexivity | split; vm_compute; reflexivity]. Qed.
+
+(** * Stateful operands: every operand of a filter combinator is told about every callsite (unless the combinator can
+      never accept it): the generated description of combinator.rs says so.  This is what makes the functional
+      description of the EnvFilter's state ([FEnv]) right under And / Or / Not in either operand order. *)
+Lemma operands_told :
+  TVGen.Gen_stack.or_asks_both = true /\ TVGen.Gen_stack.and_skips_only_after_never = true /\ TVGen.Gen_stack.not_asks = true.
+Proof. repeat split; reflexivity. Qed.
+
+(** the same per-layer filter INFO.or([s]-span directive on target app at TRACE), written in both operand orders *)
+Definition env_stack : coll :=
+  With (Filt 0 (Rec 2 nov) (FOr (FEnv [] None [(0, 5)]) (FLevel 3)))
+    (With (Filt 0 (Rec 1 nov) (FOr (FLevel 3) (FEnv [] None [(0, 5)]))) Registry).
+Definition env_history : list op := [OEvent 9; OSpan 21; OEnter 0; OEvent 9; OExit 0; OEvent 9].
+Lemma env_stack_wf : WF (build env_stack).
+Proof.
+  apply build_WF. constructor.
+  - repeat constructor; intros; reflexivity.
+  - vm_compute. discriminate.
+  - vm_compute. repeat constructor; simpl; intuition discriminate.
+Qed.
+Example env_example :
+  WF (build env_stack) /\ HintSound (build env_stack) 5 pool45 /\ clean (build env_stack) 5 pool45 env_history = true /\
+  (let outs := run_obs (build env_stack) 5 pool45 env_history in
+   (* the DEBUG event outside the span reaches nobody, inside the span both leaves, after the exit nobody *)
+   deliveredb 1 (nth 0 outs []) = false /\ deliveredb 2 (nth 0 outs []) = false /\
+   deliveredb 1 (nth 3 outs []) = true /\ deliveredb 2 (nth 3 outs []) = true /\
+   deliveredb 1 (nth 5 outs []) = false /\ deliveredb 2 (nth 5 outs []) = false).
+Proof.
+  split; [apply env_stack_wf|]. split; [hint5|]. split; [vm_compute; reflexivity|]. repeat split; vm_compute; reflexivity.
+Qed.
